@@ -59,6 +59,9 @@ UNIT = dict(
              why="a tag of kind fs that carries `full` is parsed by the name table, whatever `simple` says"),
     ],
     extract=[dict(id=n, kind="type", src=N, name=n, structural=True) for n in ENUMS] + [
+        dict(id="FsEventKind", kind="type", src=F, name="FsEventKind"),
+        dict(id="FsEventKind::from", kind="fn", src=F, impl="impl From<EventKind> for FsEventKind", name="from", emit_impl="impl FsEventKind"),
+        dict(id="simple_to_kind", kind="block", src=F, within="from", within_nth=2, expr_from="match simple", extra_bound=["simple"], free=["simple"]),
         dict(id="parse_full", kind="block", src=F, within="from", within_nth=2, expr_from="match full.as_str()", extra_bound=["full"], free=["full"]),
     ],
 )
